@@ -36,7 +36,7 @@ PickMetric == /\ stage = "metric"
 PickOpts ==
     /\ stage = "opts"
     /\ \E sym \in BOOLEAN, sq \in BOOLEAN, sp \in 1..2, thr \in {0, 1, 2}, lf \in {"squared", "absolute"},
-          rlf \in {"mae", "mse", "mdae"} :
+          rlf \in {"mae", "mse", "mdae", "masym"} :
           /\ (cfg.metric \notin Pct => sym)
           /\ (~HasSqrt(cfg.metric) => ~sq)
           /\ (cfg.metric \notin Scaled => sp = 1)
